@@ -119,6 +119,11 @@ func Load(ctx context.Context, db graph.Database, driverName string, options Loa
 	if err != nil {
 		return LoadResult{}, err
 	}
+	if options.VerifyMetrics && nextManifest.Metrics == nil {
+		// Metrics verification can never pass for this manifest: fail before anything is written to the
+		// target database instead of after the whole collection has been loaded.
+		return LoadResult{}, MissingMetricsError{Operation: OperationVerify}
+	}
 
 	slog.Info("retriever load manifest ready",
 		slog.String("input_dir", options.InputDir),
